@@ -76,6 +76,8 @@ def check_case(case):
         run = oc.Run(base, fail_at=k, exc=oc.EXC[en], listeners=[Rec()])
         sol = None
         route = f[2] if len(f) > 2 else None
+        if route == "late":
+            run.problem.fail_delay = 0.13      # the failing evaluation runs for 0.13 s before it raises (a timed-out simulation, Ctrl-C)
         nsolves = 1
         try:
             if isinstance(route, int) and 1 <= route <= k - 1:
@@ -148,6 +150,8 @@ def gen(r, tier):
             f.append(r.choice([f[0] - 1, r.randint(1, f[0] - 1)]))
         elif u < 0.4 and f[0] >= 3:
             f.append("resume")
+        elif u < 0.41:
+            f.append("late")
     return case
 
 
@@ -171,7 +175,7 @@ def run(tier, r):
             k, en = f_[0], f_[1]
             if 2 <= k <= info.get("T", 0):
                 oc.bump(stats, "exc_" + en)
-                oc.bump(stats, "route_" + ("solve" if len(f_) < 3 else ("resume" if f_[2] == "resume" else "steps_first")))
+                oc.bump(stats, "route_" + ("solve" if len(f_) < 3 else (f_[2] if f_[2] in ("resume", "late") else "steps_first")))
                 key = (base, k, en, str(f_[2:]))
                 if key not in keys:
                     keys.add(key)
